@@ -19,6 +19,9 @@ Hub::reset()
     cam_runs[0] = cam_runs[1] = store_runs[0] = store_runs[1] = 0;
     shutdown_seen = false;
     inits = 0;
+    for (bool& b : refuse_open)
+        b = false;
+    opens_refused = 0;
 }
 
 static Instance*
@@ -147,7 +150,9 @@ cam_start(Camera* c)
     Instance* i = enter(c, "camera.start");
     if (!i)
         return Device_Err;
-    if (i->started)
+    if (i->stopping)
+        lc_fail(i, "start-during-stop", "start called on a camera whose stop call was still in progress");
+    else if (i->started)
         lc_fail(i, "start-while-started", "start called on a camera that was started and not stopped");
     if (hub.cam_script[i->idx].fail_start) {
         ev(i, "start -> Err (scripted)");
@@ -172,9 +177,17 @@ cam_stop(Camera* c)
         return Device_Err;
     if (!i->started)
         lc_fail(i, "stop-without-start", "stop called on a camera that is not started (stop must follow each start exactly once)");
+    if (i->stopping)
+        lc_fail(i, "stop-reentered", "a second stop reached the camera while its first stop was still in progress");
     ev(i, "stop");
-    if (hub.cam_script[i->idx].stop_yields)
-        vsim::point(77); // a real stop takes time
+    if (hub.cam_script[i->idx].stop_yields) {
+        i->stopping = true;
+        clock_sleep_ms(nullptr, 5.0f); // a real stop takes time: other threads run while the camera stops
+        i->stopping = false;
+        i = enter(c, "camera.stop (while it was stopping)");
+        if (!i)
+            return Device_Err;
+    }
     lock_acquire(&i->lock);
     i->started = false;
     i->stops++;
@@ -383,6 +396,11 @@ d_open(Driver*, uint64_t id, Device** out)
 {
     if (id >= 4)
         return Device_Err;
+    if (hub.refuse_open[id]) { // scripted: the device cannot be opened right now (busy, unplugged)
+        hub.refuse_open[id] = false;
+        hub.opens_refused++;
+        return Device_Err;
+    }
     Instance* i = new Instance();
     memset(&i->u, 0, sizeof i->u);
     i->is_cam = id < 2;
@@ -434,7 +452,9 @@ d_close(Driver*, Device* in)
         lc_fail(i, "double-close", "device closed twice");
         return Device_Err;
     }
-    if (i->started)
+    if (i->stopping)
+        lc_fail(i, "close-during-stop", "device closed while its stop call was still in progress");
+    else if (i->started)
         lc_fail(i, "close-without-stop", "device closed while started: its start was never followed by a stop");
     i->closed = true;
     ev(i, "close");
